@@ -444,6 +444,37 @@ Theorem C09_fix_aam_accepted : forall G H : mgraph, wf G -> wf H ->
 Proof. exact fix_aam_accepted. Qed.
 Print Assumptions C09_fix_aam_accepted.
 
+(** NormalizeAAM helpers (compared on every `subgraph` case) *)
+Theorem C09_reset_indices_spec : forall G : mgraph, wf G ->
+  node_ids (reset_indices G) = map N.of_nat (seq 1 (length (gnodes G))) /\ amap_id (reset_indices G) /\
+  exists f, (forall a b, f a = f b -> a = b) /\ reset_indices G = set_amap (relabel f G).
+Proof. exact reset_indices_spec. Qed.
+Print Assumptions C09_reset_indices_spec.
+
+Theorem C09_reset_indices_by_spec : forall (order : list N) (G : mgraph), wf G -> NoDup order -> (forall n, In n order <-> In n (node_ids G)) ->
+  Permutation (node_ids (reset_indices_by order G)) (map N.of_nat (seq 1 (length (gnodes G)))) /\
+  amap_id (reset_indices_by order G) /\
+  exists f, (forall a b, f a = f b -> a = b) /\ (forall n, In n order -> f n = sigma_of order n) /\
+            reset_indices_by order G = set_amap (relabel f G).
+Proof. exact reset_indices_by_spec. Qed.
+Print Assumptions C09_reset_indices_by_spec.
+
+Theorem C09_extract_subgraph_spec : forall (G : mgraph) (keep : list N), wf G ->
+  wf (extract_subgraph G keep) /\
+  (forall n, label (extract_subgraph G keep) n = if mem n keep then label G n else None) /\
+  (forall a b x, In (a, b, x) (gedges (extract_subgraph G keep)) <-> In (a, b, x) (gedges G) /\ In a keep /\ In b keep).
+Proof. exact extract_subgraph_spec. Qed.
+Print Assumptions C09_extract_subgraph_spec.
+
+(** string-level balance verdict = graph-level formula, relative to the CalcMolFormula contract for the two sides (explicit
+    premise; the agreement is compared on every balance case) *)
+Theorem C09_rsmi_balance_check_graph : forall (formula : str -> option str) (a b fa fb : str) (G H : mgraph),
+  nosep GT a -> nosep GT b -> formula a = Some fa -> formula b = Some fb ->
+  (fa = fb <-> (forall e, el_count e G = el_count e H) /\ total_charge G = total_charge H) ->
+  rsmi_balance_check formula (a ++ GG ++ b) = Some (balancedb G H).
+Proof. exact rsmi_balance_check_graph. Qed.
+Print Assumptions C09_rsmi_balance_check_graph.
+
 (** 8. FULL numbering / atom-order independence and fixed point of the two back-ends (round 5).
        Vocabulary (proof/C09_Graph.v, proof/C09_Backends.v):
          [same_graph X Y]   = Permutation (gnodes X) (gnodes Y) /\ Permutation (map nflip (gedges X)) (map nflip (gedges Y)),
